@@ -1113,3 +1113,31 @@ def config_version_validated_rule(ctx: T.Any, rule: str) -> None:
         cs = find_calls(prog, vf, f"{eng}.parse_version_info")
         ctx.check(rule, len(cs) == 1 and [unparse(a) for a in cs[0].args] == vf.params[:2], f"_validate_version_with_pattern: {eng}.parse_version_info(current_version, version_pattern)",
                   "config._validate_version_with_pattern: current_version is not parsed with the configured pattern", f"{[unparse(c) for c in cs]}", loc=vf.loc())
+
+
+def outcome_edges_of_call(cfg: CFG, fn: FunctionInfo, call: ast.Call, outcome: bool) -> T.Optional[T.List[T.Tuple[int, int, T.Any]]]:
+    """CFG edges taken when the value of `call` is truthy (outcome=True) / falsy: the call is a branch test itself (possibly
+    under `not`), or it is bound to a single-assignment flag local that is a branch test.  None if neither."""
+    def edges(nid: int, positive: bool) -> T.List[T.Tuple[int, int, T.Any]]:
+        return cfg.edges_of_test(nid, "T" if positive == outcome else "F")
+    for n in cfg.nodes:
+        if n.kind != "test" or n.ast is None:
+            continue
+        t, pos = n.ast, True
+        while isinstance(t, ast.UnaryOp) and isinstance(t.op, ast.Not):
+            t, pos = t.operand, not pos
+        if t is call:
+            return edges(n.id, pos)
+    flags = [tg.id for st, tg, v in iter_assigns(fn.node) if v is call and isinstance(tg, ast.Name)]
+    if len(flags) == 1 and len(local_defs(fn, flags[0])) == 1:
+        out: T.List[T.Tuple[int, int, T.Any]] = []
+        for n in cfg.nodes:
+            if n.kind != "test" or n.ast is None:
+                continue
+            t, pos = n.ast, True
+            while isinstance(t, ast.UnaryOp) and isinstance(t.op, ast.Not):
+                t, pos = t.operand, not pos
+            if isinstance(t, ast.Name) and t.id == flags[0]:
+                out += edges(n.id, pos)
+        return out or None
+    return None
